@@ -739,11 +739,18 @@ impl Model for QModel {
                 r.retain(|k, v| pred_ref(*p, k, v));
             },
             QAct::RetainMut(p, w) => {
+                let mut seen: Vec<String> = Vec::new();
                 q.retain_mut(|k, v| {
+                    seen.push(k.as_str().to_owned());
                     let keep = pred_real(*p, k, v);
                     *v = w.as_str().into();
                     keep
                 });
+                // every pair is offered exactly once (a predicate may count its calls or change the value it decides on)
+                seen.sort();
+                if seen != r.keys().cloned().collect::<Vec<_>>() {
+                    bad!("retain-visits", "retain_mut offered {:?} to the predicate, reference keys {:?}", seen, r.keys().collect::<Vec<_>>());
+                }
                 r.retain(|k, v| {
                     let keep = pred_ref(*p, k, v);
                     *v = w.clone();
